@@ -24,7 +24,7 @@ import (
 // commit hash of that version.
 
 type c30sOp struct {
-	Op     string   `json:"op"` // set del get has iter commit imm query reopen cache
+	Op     string   `json:"op"` // set del get has iter commit imm query reopen cache replay
 	Key    B        `json:"key"`
 	Val    B        `json:"val"`
 	Start  B        `json:"start"`
@@ -44,7 +44,7 @@ type c30sCase struct {
 
 func c30sDraw(rt *rapid.T) c30sCase {
 	c := c30sCase{KeepRecent: rapid.SampledFrom([]int64{0, 0, 1, 2, 5}).Draw(rt, "recent"), KeepEvery: rapid.SampledFrom([]int64{0, 0, 1}).Draw(rt, "every")}
-	kinds := []string{"set", "set", "set", "set", "set", "del", "del", "get", "has", "iter", "iter", "commit", "commit", "commit", "imm", "imm", "query", "query", "query", "reopen", "cache"}
+	kinds := []string{"set", "set", "set", "set", "set", "del", "del", "get", "has", "iter", "iter", "commit", "commit", "commit", "imm", "imm", "query", "query", "query", "reopen", "cache", "replay"}
 	n := rapid.IntRange(8, 70).Draw(rt, "nops")
 	for i := 0; i < n; i++ {
 		op := c30sOp{Op: rapid.SampledFrom(kinds).Draw(rt, "op")}
@@ -64,6 +64,10 @@ func c30sDraw(rt *rapid.T) c30sCase {
 		case "query":
 			op.Key = c30DrawKey(rt, "k")
 			op.Height = rapid.IntRange(0, 8).Draw(rt, "height")
+		case "replay":
+			op.Key = c30DrawKey(rt, "k")
+			op.Steps = -1
+			op.Ver = rapid.IntRange(0, 1).Draw(rt, "handle")
 		case "cache":
 			m := rapid.IntRange(1, 5).Draw(rt, "nsub")
 			for j := 0; j < m; j++ {
@@ -150,7 +154,11 @@ func c30sExec(ctx *vk.Ctx, c c30sCase) error {
 		}
 		return NewOMap()
 	}
+	// the tree-level writes since the last commit, and those that made version lastLogVer out of lastLogVer-1
+	var pending, lastLog []c30sOp
+	var lastLogVer int64
 	applyShadow := func(op c30sOp) {
+		pending = append(pending, op)
 		if op.Op == "set" {
 			shadow.Set(clone(op.Key), nonNil(clone(op.Val)))
 		} else {
@@ -170,6 +178,8 @@ func c30sExec(ctx *vk.Ctx, c c30sCase) error {
 		}
 	}
 	var ntOld, ntProof bool
+	var replayedAt int64 // the version whose writes were applied again last (0: no replay yet)
+	var queryAt func(what string, key []byte, h int64) (bool, error)
 	reopened := false
 	// knownGhost recognises the consequences of one IAVL defect: after a restart the first
 	// version is rediscovered by probing root keys, and the root of a pruned single-key version
@@ -190,6 +200,96 @@ func c30sExec(ctx *vk.Ctx, c c30sCase) error {
 			return true
 		}
 		return false
+	}
+	// queryAt runs the /key query with proof for key at height h (0 = default height) and checks value and proof.
+	queryAt = func(what string, key []byte, h int64) (proved bool, err error) {
+		op := c30sOp{Key: key}
+		var res abci.ResponseQuery
+		if p := c29Recover(func() {
+			res = st.Query(abci.RequestQuery{Path: "/key", Data: clone(op.Key), Height: h, Prove: true})
+		}); p != nil {
+			if knownGhost(fmt.Sprint(p)) {
+				return false, nil
+			}
+			return false, fmt.Errorf("%s: Query(%v@%d) panicked: %v", what, op.Key, h, p)
+		}
+		wantH := h
+		if h == 0 { // documented: latest-1 if present, else latest
+			wantH = latest
+			if st.VersionExists(latest - 1) {
+				wantH = latest - 1
+			}
+		}
+		if res.Height != wantH {
+			return false, fmt.Errorf("%s: Query height %d answered for height %d, expected %d", what, h, res.Height, wantH)
+		}
+		if !st.VersionExists(wantH) {
+			if res.Value != nil || res.Proof != nil {
+				return false, fmt.Errorf("%s: Query at pruned height %d returned data", what, wantH)
+			}
+			ctx.Class("query:pruned")
+			return false, nil
+		}
+		if res.Error != nil {
+			return false, fmt.Errorf("%s: Query(%v@%d): %v", what, op.Key, wantH, res.Error)
+		}
+		m, _ := saved.Get(wantH)
+		want, ok := m.Get(op.Key)
+		if (ok && (res.Value == nil || !bytes.Equal(res.Value, want))) || (!ok && res.Value != nil) {
+			return false, fmt.Errorf("%s: Query(%v@%d) value %q (nil=%v), model present=%v value=%q (log %q)", what, op.Key, wantH, res.Value, res.Value == nil, ok, want, res.Log)
+		}
+		emptyNear := ok && len(want) == 0
+		if !ok { // a neighbour with an empty value cannot be expressed by ics23 either
+			for _, kv := range [][]KV{m.Range(nil, op.Key, true), m.Range(op.Key, nil, false)} {
+				if len(kv) > 0 && len(kv[0].V) == 0 {
+					emptyNear = true
+				}
+			}
+		}
+		verr := func() error {
+			if res.Proof == nil || len(res.Proof.Ops) != 1 {
+				return fmt.Errorf("no single proof op (log %q)", res.Log)
+			}
+			po, err := types.CommitmentOpDecoder(res.Proof.Ops[0])
+			if err != nil {
+				return fmt.Errorf("proof op does not decode: %v", err)
+			}
+			var args [][]byte
+			if ok {
+				args = [][]byte{want}
+			}
+			roots, err := po.Run(args)
+			if err != nil {
+				return fmt.Errorf("proof op does not verify: %v", err)
+			}
+			if len(roots) != 1 || !bytes.Equal(roots[0], hashes[wantH]) {
+				return fmt.Errorf("proof recomputes root %X, version %d was committed with hash %X", roots, wantH, hashes[wantH])
+			}
+			// the same proof must not establish the opposite answer
+			if ok {
+				if _, err := po.Run(nil); err == nil {
+					return fmt.Errorf("membership proof also verifies absence")
+				}
+				if _, err := po.Run([][]byte{append(clone(want), 'x')}); err == nil {
+					return fmt.Errorf("membership proof verifies another value")
+				}
+			} else if _, err := po.Run([][]byte{[]byte("v")}); err == nil {
+				return fmt.Errorf("non-membership proof verifies presence")
+			}
+			return nil
+		}()
+		if verr != nil {
+			if emptyNear && m.Len() > 0 && ctx.Known("iavl-empty-value-has-no-verifying-membership-proof") {
+				ctx.Class("known:iavl-empty-value-has-no-verifying-membership-proof")
+				return false, nil
+			}
+			if m.Len() == 0 { // an empty tree has no ics23 non-membership proof; the value answer was checked
+				ctx.Class("query:empty-tree")
+				return false, nil
+			}
+			return false, fmt.Errorf("%s: Query(%v@%d) present=%v: %v", what, op.Key, wantH, ok, verr)
+		}
+		return true, nil
 	}
 	for i, op := range c.Ops {
 		what := fmt.Sprintf("op %d %s", i, op.Op)
@@ -237,6 +337,7 @@ func c30sExec(ctx *vk.Ctx, c c30sCase) error {
 			}
 			saved.Save(latest, work)
 			hashes[latest] = clone(cid.Hash)
+			lastLog, lastLogVer, pending = pending, latest, nil
 			// "KeepRecent: how many old versions we hold onto"
 			for v := latest; v >= 1 && v >= latest-c.KeepRecent; v-- {
 				if !st.VersionExists(v) {
@@ -250,6 +351,7 @@ func c30sExec(ctx *vk.Ctx, c c30sCase) error {
 			}
 			work = lastSaved()
 			shadow.Rollback()
+			pending = nil
 			reopened = true
 			if l := st.LastCommitID(); l.Version != latest || (latest > 0 && !bytes.Equal(l.Hash, hashes[latest])) {
 				return fmt.Errorf("%s: LastCommitID() = %v after reopen, model version %d hash %X", what, l, latest, hashes[latest])
@@ -289,93 +391,85 @@ func c30sExec(ctx *vk.Ctx, c c30sCase) error {
 			if op.Height > 0 {
 				h = int64(op.Height-1)%latest + 1
 			}
-			var res abci.ResponseQuery
-			if p := c29Recover(func() {
-				res = st.Query(abci.RequestQuery{Path: "/key", Data: clone(op.Key), Height: h, Prove: true})
-			}); p != nil {
-				if knownGhost(fmt.Sprint(p)) {
-					break
-				}
-				return fmt.Errorf("%s: Query(%v@%d) panicked: %v", what, op.Key, h, p)
+			proved, err := queryAt(what, op.Key, h)
+			if err != nil {
+				return err
 			}
-			wantH := h
-			if h == 0 { // documented: latest-1 if present, else latest
-				wantH = latest
-				if st.VersionExists(latest - 1) {
-					wantH = latest - 1
-				}
-			}
-			if res.Height != wantH {
-				return fmt.Errorf("%s: Query height %d answered for height %d, expected %d", what, h, res.Height, wantH)
-			}
-			if !st.VersionExists(wantH) {
-				if res.Value != nil || res.Proof != nil {
-					return fmt.Errorf("%s: Query at pruned height %d returned data", what, wantH)
-				}
-				ctx.Class("query:pruned")
+			ntProof = ntProof || proved
+		case "replay":
+			// Crash-recovery style reload (Committer.LoadVersion of the previous version by a caller
+			// whose own records are one commit behind): apply the writes of the latest commit
+			// again and Commit. The version exists with the same hash, so the commit is idempotent
+			// and must answer with the same CommitID; the history continues on this handle.
+			base := latest - 1
+			if base < 1 || lastLogVer != latest || !st.VersionExists(base) {
 				break
 			}
-			if res.Error != nil {
-				return fmt.Errorf("%s: Query(%v@%d): %v", what, op.Key, wantH, res.Error)
+			rst := st
+			if op.Ver%2 == 1 {
+				rst = storeiavl.StoreConstructor(db, opts).(*storeiavl.Store)
+				reopened = true
 			}
-			m, _ := saved.Get(wantH)
-			want, ok := m.Get(op.Key)
-			if (ok && (res.Value == nil || !bytes.Equal(res.Value, want))) || (!ok && res.Value != nil) {
-				return fmt.Errorf("%s: Query(%v@%d) value %q (nil=%v), model present=%v value=%q (log %q)", what, op.Key, wantH, res.Value, res.Value == nil, ok, want, res.Log)
-			}
-			emptyNear := ok && len(want) == 0
-			if !ok { // a neighbour with an empty value cannot be expressed by ics23 either
-				for _, kv := range [][]KV{m.Range(nil, op.Key, true), m.Range(op.Key, nil, false)} {
-					if len(kv) > 0 && len(kv[0].V) == 0 {
-						emptyNear = true
-					}
-				}
-			}
-			verr := func() error {
-				if res.Proof == nil || len(res.Proof.Ops) != 1 {
-					return fmt.Errorf("no single proof op (log %q)", res.Log)
-				}
-				po, err := types.CommitmentOpDecoder(res.Proof.Ops[0])
-				if err != nil {
-					return fmt.Errorf("proof op does not decode: %v", err)
-				}
-				var args [][]byte
-				if ok {
-					args = [][]byte{want}
-				}
-				roots, err := po.Run(args)
-				if err != nil {
-					return fmt.Errorf("proof op does not verify: %v", err)
-				}
-				if len(roots) != 1 || !bytes.Equal(roots[0], hashes[wantH]) {
-					return fmt.Errorf("proof recomputes root %X, version %d was committed with hash %X", roots, wantH, hashes[wantH])
-				}
-				// the same proof must not establish the opposite answer
-				if ok {
-					if _, err := po.Run(nil); err == nil {
-						return fmt.Errorf("membership proof also verifies absence")
-					}
-					if _, err := po.Run([][]byte{append(clone(want), 'x')}); err == nil {
-						return fmt.Errorf("membership proof verifies another value")
-					}
-				} else if _, err := po.Run([][]byte{[]byte("v")}); err == nil {
-					return fmt.Errorf("non-membership proof verifies presence")
-				}
-				return nil
-			}()
-			if verr != nil {
-				if emptyNear && m.Len() > 0 && ctx.Known("iavl-empty-value-has-no-verifying-membership-proof") {
-					ctx.Class("known:iavl-empty-value-has-no-verifying-membership-proof")
+			if err := rst.LoadVersion(base); err != nil {
+				if knownGhost(err.Error()) {
 					break
 				}
-				if m.Len() == 0 { // an empty tree has no ics23 non-membership proof; the value answer was checked
-					ctx.Class("query:empty-tree")
-					break
-				}
-				return fmt.Errorf("%s: Query(%v@%d) present=%v: %v", what, op.Key, wantH, ok, verr)
+				return fmt.Errorf("%s: LoadVersion(%d) of an existing version: %v", what, base, err)
 			}
-			ntProof = true
+			st = rst
+			shadow.Rollback()
+			pending = nil
+			mb, _ := saved.Get(base)
+			if err := c30sCheckStore(fmt.Sprintf("%s: store after LoadVersion(%d)", what, base), st, mb, op); err != nil {
+				return err
+			}
+			for _, w := range lastLog {
+				if w.Op == "set" {
+					st.Set(nil, clone(w.Key), nonNil(clone(w.Val)))
+				} else {
+					st.Delete(nil, clone(w.Key))
+				}
+			}
+			var cid types.CommitID
+			if p := c29Recover(func() { cid = st.Commit() }); p != nil {
+				return fmt.Errorf("%s: Commit() after applying the %d writes of version %d again on top of version %d panicked: %v", what, len(lastLog), latest, base, p)
+			}
+			if cid.Version != latest || !bytes.Equal(cid.Hash, hashes[latest]) {
+				return fmt.Errorf("%s: Commit() after applying the writes of version %d again = version %d hash %X, committed before as hash %X", what, latest, cid.Version, cid.Hash, hashes[latest])
+			}
+			if l := st.LastCommitID(); !l.Equals(cid) {
+				return fmt.Errorf("%s: LastCommitID() = %v after the idempotent Commit() = %v", what, l, cid)
+			}
+			work = lastSaved()
+			if err := c30sCheckStore(what+": working store after the idempotent commit", st, work, op); err != nil {
+				return err
+			}
+			ctx.Class(fmt.Sprintf("replay:new-handle=%v", op.Ver%2 == 1))
+			replayedAt = latest
 		}
+	}
+	// every key and every gap of the latest version has a query proof that recomputes its commit hash
+	if m, ok := saved.Get(latest); ok && st.VersionExists(latest) {
+		keys := m.Keys()
+		probes := make([][]byte, 0, 2*len(keys)+1)
+		if len(keys) > 0 {
+			if first := []byte(keys[0]); len(first) > 1 {
+				probes = append(probes, first[:len(first)-1])
+			}
+		}
+		for i, k := range keys {
+			probes = append(probes, []byte(k))
+			if g := append([]byte(k), 0); i+1 == len(keys) || string(g) < keys[i+1] {
+				probes = append(probes, g)
+			}
+		}
+		for _, k := range probes {
+			if _, err := queryAt("final: proof sweep", k, latest); err != nil {
+				return err
+			}
+		}
+		ctx.ClassIf(len(keys) > 0, "query:proof-sweep-of-latest-version")
+		ctx.ClassIf(replayedAt > 0 && latest > replayedAt, "replay:version-committed-afterwards-proof-swept")
 	}
 	full := c30sOp{Key: B("k"), Steps: -1}
 	if err := c30sCheckStore("final: working store", st, work, full); err != nil {
@@ -403,7 +497,7 @@ func c30sExec(ctx *vk.Ctx, c c30sCase) error {
 	return nil
 }
 
-const c30sRule = "rapid: pruning options (KeepRecent 0/1/2/5, KeepEvery 0/1) and 8-70 ops over store/iavl.Store on memdb: set/delete (directly and through CacheWrap()+Write()), get/has, (reverse) iterators over generated domains consumed fully or partly, Commit, reopen (new store over the same DB + LoadLatestVersion), GetImmutable(version) reads, /key queries with proof at explicit and default heights; a bare MutableTree is fed the same history as a hash reference; non-trivial = at least two commits and a read of an older version or a verified query proof"
+const c30sRule = "rapid: pruning options (KeepRecent 0/1/2/5, KeepEvery 0/1) and 8-70 ops over store/iavl.Store on memdb: set/delete (directly and through CacheWrap()+Write()), get/has, (reverse) iterators over generated domains consumed fully or partly, Commit, reopen (new store over the same DB + LoadLatestVersion), crash-recovery style replay (LoadVersion(latest-1) on the live or a new store, the tree-level writes of the latest commit applied again, idempotent Commit, history continues), GetImmutable(version) reads, /key queries with proof at explicit and default heights, and a final query-proof sweep over every key and gap of the latest version; a bare MutableTree is fed the same history as a hash reference; non-trivial = at least two commits and a read of an older version or a verified query proof"
 
 func TestC30_Store(t *testing.T) {
 	vk.Run(t, vk.Spec[c30sCase]{ID: "C30", Name: "TestC30_Store", Rule: c30sRule, Draw: c30sDraw, Exec: c30sExec})
